@@ -601,7 +601,22 @@ def rule_y13(ctx, funcs: List[Func]) -> None:
             continue
         n += 1
         cfg = CFG(f.node)
-        canon = [a for a in own_nodes(f.node) if isinstance(a, ast.Assign) and isinstance(a.value, ast.Call) and unparse(a.value.func).split(".")[-1] in ("CanonSmiles", "MolToSmiles", "canon_smiles") and any(isinstance(t, ast.Name) for t in a.targets)]
+        def canonicaliser(call) -> bool:
+            """RDKit's canonical writer after a *sanitising* parse (which also folds hydrogens written as atoms into
+            their neighbours); a package helper counts only if it parses that way too"""
+            t = unparse(call.func).split(".")[-1]
+            if t in ("CanonSmiles", "MolToSmiles"):
+                return True
+            tgt = ctx.res.resolve_callee(call, f)
+            g = ctx.prog.functions.get(tgt[1]) if tgt and tgt[0] == "func" else None
+            if g is None:
+                return False
+            parses = [c for c in own_nodes(g.node) if isinstance(c, ast.Call) and unparse(c.func).split(".")[-1] == "MolFromSmiles"]
+            writes = [c for c in own_nodes(g.node) if isinstance(c, ast.Call) and unparse(c.func).split(".")[-1] in ("MolToSmiles", "CanonSmiles")]
+            raw = [c for c in parses if any(k.arg == "sanitize" and not (isinstance(k.value, ast.Constant) and k.value.value is True) for k in c.keywords)]
+            return bool(writes) and not raw
+
+        canon = [a for a in own_nodes(f.node) if isinstance(a, ast.Assign) and isinstance(a.value, ast.Call) and canonicaliser(a.value) and any(isinstance(t, ast.Name) for t in a.targets)]
         ok = False
         for q in queries:
             arg = q.args[0]
@@ -616,6 +631,68 @@ def rule_y13(ctx, funcs: List[Func]) -> None:
         if not ok:
             ctx.finding("C20-Y13", "%s.%s:query-on-given-spelling" % (f.qualname.split(".")[-2], f.name), f.loc(queries[0]), "%s queries the functional groups of the SMILES as given and returns the canonical spelling of the result: a group hidden by the given spelling (C(=C)O[H]) is rewritten only by a second application, so standardising twice differs from standardising once" % f.name)
     ctx.require(n >= 1, "no method of the standardiser both queries functional groups and returns a SMILES")
+
+
+def rule_y16(ctx, funcs: List[Func]) -> None:
+    """Atom indices reported by the functional-group query are positions in the SMILES that was queried.  Every rewrite
+    returns a renumbered canonical SMILES, so anything remembered *by index* from one query (a set of groups already
+    tried, a skip list) describes other atoms after the next rewrite: a group that can still be rewritten is skipped in
+    this call and rewritten by the next one - applying twice differs from applying once."""
+    ctx.rule("C20-Y16", "nothing keyed by atom indices of one functional-group query is kept across a rewrite (re-query)", 1)
+    n = 0
+    for f in funcs:
+        qcalls = [c for c in own_nodes(f.node) if isinstance(c, ast.Call) and isinstance(c.func, ast.Attribute) and c.func.attr == "get" and isinstance(c.func.value, ast.Attribute) and "query" in c.func.value.attr and c.args]
+        if not qcalls:
+            continue
+        # outermost loop around the query: one iteration = one SMILES
+        def outer_loop(node):
+            out, cur = None, getattr(node, "_parent", None)
+            while cur is not None and cur is not f.node:
+                if isinstance(cur, (ast.For, ast.While)):
+                    out = cur
+                cur = getattr(cur, "_parent", None)
+            return out
+
+        for q in qcalls:
+            lp = outer_loop(q)
+            if lp is None:
+                continue
+            n += 1
+            # names bound to the query result, loops over them, their index variables
+            st = q
+            while not isinstance(st, ast.stmt):
+                st = getattr(st, "_parent", None)
+            holders = set()
+            if isinstance(st, ast.Assign):
+                for t in st.targets:
+                    holders.add(unparse(t))
+            idx_vars = set()
+            for x in ast.walk(lp):
+                if isinstance(x, ast.For) and (unparse(x.iter) in holders or x.iter is q):
+                    idx_vars |= {v.id for v in ast.walk(x.target) if isinstance(v, ast.Name)}
+            # derived locals (group = (name, tuple(atom_indices)))
+            for _ in range(3):
+                for x in ast.walk(lp):
+                    if isinstance(x, ast.Assign) and any(isinstance(v, ast.Name) and v.id in idx_vars for v in ast.walk(x.value)):
+                        idx_vars |= {t.id for t in x.targets if isinstance(t, ast.Name)}
+            bad = None
+            for x in ast.walk(lp):
+                cont = None
+                if isinstance(x, ast.Call) and isinstance(x.func, ast.Attribute) and x.func.attr in ("add", "append", "update", "extend", "setdefault", "insert") and isinstance(x.func.value, ast.Name) and any(isinstance(v, ast.Name) and v.id in idx_vars for a in x.args for v in ast.walk(a)):
+                    cont = x.func.value.id
+                elif isinstance(x, ast.Assign) and any(isinstance(t, ast.Subscript) and isinstance(t.value, ast.Name) and any(isinstance(v, ast.Name) and v.id in idx_vars for v in ast.walk(t.slice)) for t in x.targets):
+                    cont = next(t.value.id for t in x.targets if isinstance(t, ast.Subscript) and isinstance(t.value, ast.Name))
+                if cont is None:
+                    continue
+                defs = [d for d, _v, _i in assignments_to(f, cont)]
+                inside = [d for d in defs if any(d is y for y in ast.walk(lp))]
+                if defs and not inside:
+                    bad = bad or (x, cont)
+            ctx.instance("C20-Y16", "%s: containers filled by atom index inside the rewrite loop are rebuilt per query: %s" % (f.name, bad is None), f.loc(q), ok=bad is None)
+            if bad is not None:
+                ctx.finding("C20-Y16", "%s.%s:index-memo-across-rewrites:%s" % (f.qualname.split(".")[-2], f.name, bad[1]), f.loc(bad[0]), "%s remembers functional groups by atom index in `%s`, which is created before the rewrite loop and outlives a rewrite: the next query numbers the atoms of another SMILES, a group that can still be rewritten lands on a remembered index tuple and is skipped - a second application rewrites it, so standardising twice differs from standardising once" % (f.name, bad[1]))
+    if n == 0:
+        ctx.note("C20-Y16: no functional-group query sits inside a rewrite loop on this tree")
 
 
 def rule_y14(ctx, funcs: List[Func]) -> None:
@@ -740,6 +817,7 @@ def check(ctx) -> None:
         rule_y12(ctx, funcs)
         rule_y14(ctx, funcs)
         rule_y15(ctx, funcs)
+        rule_y16(ctx, funcs)
     else:
         rule_y13(ctx, funcs)
         rule_y1(ctx, funcs)
@@ -755,3 +833,4 @@ def check(ctx) -> None:
         rule_y12(ctx, funcs)
         rule_y14(ctx, funcs)
         rule_y15(ctx, funcs)
+        rule_y16(ctx, funcs)
